@@ -2,7 +2,7 @@
 #![allow(dead_code, static_mut_refs, unused_imports)]
 use super::*;
 
-#[path = "/verif/kani/libc_model.rs"]
+#[path = "libc_model.rs"]
 mod lm;
 
 // Kani drops the variadic argument of a foreign call, so the scratch copy of pipe.rs has every
